@@ -17,7 +17,7 @@ def harness(b, name, extra_cflags=(), link_comp=True, extra_src=(), opt='-O1'):
         return out
     os.makedirs(b.B + '/harness', exist_ok=True)
     cmd = ['gcc', opt, '-g', '-w', '-std=gnu99', _b.GUARD] + list(extra_cflags) + \
-        ['-I' + b.B + '/gen', '-I' + _b.SRC, '-I' + HERE, src] + list(extra_src)
+        ['-I' + b.B + '/src', '-I' + HERE, src] + list(extra_src)
     if link_comp:
         cmd += [b.B + '/libcomp.a']
     cmd += ['-lm', '-o', out + '.tmp']
